@@ -53,6 +53,8 @@ func c19Bound() time.Duration {
 type lev struct{ stamp, code, id, val int64 }
 
 type lrun struct {
+	switchAt  int64
+	second    func(any)
 	l         *goz.Limiter
 	mu        sync.Mutex
 	ctr       int64
@@ -159,20 +161,37 @@ func newLrun(n int64) *lrun {
 		r.goret[i] = make(chan struct{})
 		r.release[i] = make(chan int64, 1)
 	}
-	r.l.SetPanicHandler(func(p any) {
-		v := c19DecodePanic(p)
-		r.handledN.Add(1)
-		id := v - 1000
-		if id < 0 || id >= 64 {
-			id = -1
+	// Two handlers with the same behaviour.  In every other run the second one replaces the first between the first and
+	// the second submission (SetPanicHandler on a limiter already in use): a panic must reach the handler that was
+	// configured when its function was submitted; a value delivered to the other one is stamped as an unknown value,
+	// which no model trace contains.
+	r.switchAt = -1
+	mk := func(second bool) func(any) {
+		return func(p any) {
+			v := c19DecodePanic(p)
+			r.handledN.Add(1)
+			id := v - 1000
+			if id < 0 || id >= 64 {
+				id = -1
+			}
+			sw := atomic.LoadInt64(&r.switchAt)
+			if id >= 0 && sw >= 0 && (id >= sw) != second {
+				v += 500000 // delivered to the wrong handler
+			}
+			r.stamp(lPanic, id, v)
+			if id >= 0 {
+				r.endOnce[id].Do(func() { close(r.ended[id]) })
+			}
 		}
-		r.stamp(lPanic, id, v)
-		if id >= 0 {
-			r.endOnce[id].Do(func() { close(r.ended[id]) })
-		}
-	})
+	}
+	r.l.SetPanicHandler(mk(false))
+	if atomic.AddInt64(&c19RunCounter, 1)%2 == 0 {
+		r.second = mk(true)
+	}
 	return r
 }
+
+var c19RunCounter int64
 
 // the capacity of the real token channel (read-only reflection); falls back to the documented rule
 func (r *lrun) realCap(n int64) int {
@@ -298,6 +317,10 @@ func c19Script(n int64, ops []int64) []int64 {
 		id := next
 		next++
 		r.kind[id] = kind
+		if id == 1 && r.second != nil {
+			atomic.StoreInt64(&r.switchAt, 1)
+			r.l.SetPanicHandler(r.second)
+		}
 		r.reqs <- id
 		if len(queue) == 0 && len(act) < neff {
 			admitWait(id)
